@@ -212,6 +212,10 @@ STATEMENTS = [
     ("select regexp_replace(b, 'x+', 'y'), regexp_substr(b, 'x') from t1", None, "pyformat", True),
     ("select array_agg(a) within group (order by a desc) as aa, array_contains(1::variant, array_construct(1, 2)) as ac from t1", None, "pyformat", True),
     ("select b:k.j::varchar, to_timestamp_ntz(a), a::number(10,2) from t1", None, "pyformat", True),
+    # server-side (qmark) binding of statements that answer with a status / count row: the description is about that row, which has no placeholders
+    ("insert into t1 (a, b) values (?, ?)", (1, "x"), "qmark", False),
+    ("update t1 set b = ? where a = ?", ("y", 1), "qmark", False),
+    ("delete from t1 where a = ?", (5,), "qmark", False),
 ]
 
 
@@ -277,7 +281,7 @@ def _describe_after(si: int, as_dict: bool, ncols: int) -> bool:
 @ob(
     "C06.description_after_every_statement_kind",
     encodes=["fakesnow.cursor.FakeSnowflakeCursor.execute/_execute", "FakeSnowflakeCursor.description/_describe_last_sql", "fakesnow.types.describe_as_result_metadata"],
-    bounds="39 statements: queries (plain, pyformat and qmark parameters, seeded RANDOM/SAMPLE, literals and bound text ending in a backslash or holding quotes, DATEDIFF / REGEXP_* / ARRAY_AGG WITHIN GROUP / JSON paths / casts whose engine SQL reads differently in other dialects), INSERT/UPDATE/DELETE/MERGE, CREATE/ALTER/DROP "
+    bounds="42 statements: queries (plain, pyformat and qmark parameters - qmark also on INSERT / UPDATE / DELETE -, seeded RANDOM/SAMPLE, literals and bound text ending in a backslash or holding quotes, DATEDIFF / REGEXP_* / ARRAY_AGG WITHIN GROUP / JSON paths / casts whose engine SQL reads differently in other dialects), INSERT/UPDATE/DELETE/MERGE, CREATE/ALTER/DROP "
     "TABLE|VIEW|SCHEMA|DATABASE incl. COMMENT, tag and cluster no-ops, USE DATABASE/SCHEMA, BEGIN/COMMIT/ROLLBACK, SET, TRUNCATE, SHOW "
     "TABLES/SCHEMAS/OBJECTS, DESCRIBE TABLE, a nop_regexes match x tuple/dict cursor x 1..3 result columns (repeated names for tuples); the DESCRIBE "
     "reaching the engine is about exactly the engine SQL of the statement",
